@@ -21,8 +21,9 @@ def run(ctx):
     ctx.trusted += [
         "hand-written model RotoV/Model/Scope.lean of ScopeGraph (wrap, resolve_name, insert_declaration, "
         "insert_import, parent_module, module_name, print_scope), resolve_module_part_of_path, import/imports, the "
-        "name-relevant passes of check_module_tree, full_name/get_function and find_files/process_subdir; tied to the "
-        "source by the differential run only (the quantifier over module trees is sampled there)",
+        "name-relevant passes of check_module_tree, full_name/get_function and find_files/process_subdir; resolve_name, "
+        "resolve_module_part_of_path, import and the loop of imports are tied by transliteration theorems, the rest by "
+        "generated facts and the differential run only (the quantifier over module trees is sampled there)",
         "stub declarations and their later update are merged in the model; TypeParams scopes are not allocated "
         "(scope numbering is compared through print_scope, never raw)",
         "the parser's expansion of nested import lists is re-implemented in the harness (prefix ++ sub-path) and "
